@@ -26,6 +26,15 @@
 (*   OnCreate(o)  created/modified event of a live request                   *)
 (*   OnDelete(o)  deleted event (events are delivered in order, so a create  *)
 (*                of o is not processed before a pending delete of o)        *)
+(*                                                                           *)
+(* Garbage collection runs in another process than the calls that create     *)
+(* entries (`sproc firewall` / the port scanner / the network service vs.    *)
+(* `treadmill run`), so besides the atomic VipGC/RuleGC/SpecGC there is a    *)
+(* *stepped* pass: GcBegin(db) (the call starts), GcList (the directory is   *)
+(* listed), GcVisit(e) (stat of one listed entry, unlink if its owner does   *)
+(* not exist), GcEnd.  Between these steps the environment may act, the way  *)
+(* the system can: a *new* owner appears (one that holds nothing yet), a     *)
+(* live owner creates entries, an owner disappears.                          *)
 EXTENDS Naturals, Sequences, FiniteSets, TLC
 
 CONSTANTS OwnerIds,     \* owner names
@@ -60,6 +69,15 @@ Release(db, e, o, checked) ==
   IF Held(db, e) /\ (Own(db, e) = o \/ ~checked) THEN Del(db, e) ELSE db
 
 R(post, res) == [post |-> post, res |-> res]
+
+(* the stepped garbage collection pass in progress (model bookkeeping)       *)
+NoGc == [on |-> FALSE, db |-> "", start |-> {}, ever |-> {}, listed |-> FALSE,
+         todo |-> {}, snap |-> {}]
+DbGet(s, d) == CASE d = "vips" -> s.vips [] d = "rules" -> s.rules [] OTHER -> s.specs
+DbSet(s, d, v) == CASE d = "vips" -> [s EXCEPT !.vips = v]
+                    [] d = "rules" -> [s EXCEPT !.rules = v]
+                    [] OTHER -> [s EXCEPT !.specs = v]
+Ents(db) == {p[1] : p \in db}
 
 FreeHosts(s) == {h \in HostSet : ~Held(s.vips, h)}
 
@@ -116,7 +134,8 @@ Choices(s, ev, a) ==
 
 Step(s, ev, a, c) ==
   CASE ev = "OwnerAppears" ->
-         R([s EXCEPT !.live = @ \cup {a[1]}], "ok")
+         R([s EXCEPT !.live = @ \cup {a[1]},
+                     !.gc.ever = IF s.gc.on THEN @ \cup {a[1]} ELSE @], "ok")
     [] ev = "OwnerDisappears" ->
          R([s EXCEPT !.live = @ \ {a[1]},
                      !.pend = IF s.phase = "down" THEN @ ELSE @ \cup {a[1]}], "ok")
@@ -155,6 +174,23 @@ Step(s, ev, a, c) ==
          R([s EXCEPT !.specs = {p \in @ : ~(AppOf(p[1]) = a[2] /\ p[2] = a[1])}], "ok")
     [] ev = "SpecGC" ->
          R([s EXCEPT !.specs = LiveOnly(@, s.live)], "ok")
+    (* ---- stepped garbage collection of database a[1] ---- *)
+    [] ev = "GcBegin" ->
+         R([s EXCEPT !.gc = [on |-> TRUE, db |-> a[1], start |-> DbGet(s, a[1]),
+                             ever |-> s.live, listed |-> FALSE, todo |-> {},
+                             snap |-> s.live]], "ok")
+    [] ev = "GcList" ->
+         R([s EXCEPT !.gc.listed = TRUE, !.gc.todo = Ents(DbGet(s, s.gc.db))], "ok")
+    [] ev = "GcVisit" ->
+         (* stat(link) follows the link as it is *now*; a deviation: decide    *)
+         (* against a snapshot of the owners taken when the pass began         *)
+         LET d == s.gc.db
+             db == DbGet(s, d)
+             alive == IF "gc_owner_snapshot" \in Defects THEN s.gc.snap ELSE s.live
+             s1 == [s EXCEPT !.gc.todo = @ \ {a[2]}] IN
+         IF Held(db, a[2]) /\ Own(db, a[2]) \notin alive
+         THEN R(DbSet(s1, d, Del(db, a[2])), "ok") ELSE R(s1, "ok")
+    [] ev = "GcEnd" -> R([s EXCEPT !.gc = NoGc], "ok")
     (* ---- network service ---- *)
     [] ev = "SvcStart" -> R(SvcInitialize(s), "ok")
     [] ev = "Import" ->
@@ -170,10 +206,13 @@ Step(s, ev, a, c) ==
 GrantOps   == {"VipAlloc", "VipAllocPicked", "RuleCreate", "SpecCreate", "OnCreate", "Import"}
 ReleaseOps == {"VipFree", "RuleUnlink", "SpecUnlink", "SpecUnlinkAll", "OnDelete"}
 GcOps      == {"VipGC", "RuleGC", "SpecGC"}
+GcSegs     == {"GcList", "GcVisit", "GcRun", "GcEnd"}   \* GcRun: an opaque stretch of a recorded pass
+EnvOps     == {"OwnerAppears", "OwnerDisappears", "VipAlloc", "RuleCreate", "SpecCreate"}
 Failed(res) == res \in {"raise", "skip"}
 
 DbOf(s, ev) ==
-  CASE ev \in {"VipAlloc", "VipAllocPicked", "VipFree", "VipGC", "OnCreate", "Import",
+  CASE ev \in GcSegs \cup {"GcBegin"} -> DbGet(s, s.gc.db)
+    [] ev \in {"VipAlloc", "VipAllocPicked", "VipFree", "VipGC", "OnCreate", "Import",
                "OnDelete", "Synchronize"} -> s.vips
     [] ev \in {"RuleCreate", "RuleUnlink", "RuleGC"} -> s.rules
     [] OTHER -> s.specs
@@ -237,6 +276,19 @@ C14gcExact(pre, ev, post) ==
         /\ \A p \in pre.vips \ post.vips :
               p[2] \notin pre.live \/ (\E d \in pre.dev : d.o = p[2] /\ d.stale)
         /\ post.rules = pre.rules /\ post.specs = pre.specs
+  (* a stepped pass, judged segment by segment (the environment does not act  *)
+  (* inside a segment, so pre.live is who exists at the time of a removal):   *)
+  (* nothing is added or re-pointed, an entry is removed only if its owner    *)
+  (* does not exist at that time, the other databases are untouched; when the *)
+  (* pass ends, every entry that was there when it began and whose owner did  *)
+  (* not exist at any time during the pass has been reclaimed.                *)
+  /\ ev \in GcSegs =>
+        LET d == pre.gc.db IN
+        /\ DbGet(post, d) \subseteq DbGet(pre, d)
+        /\ \A p \in DbGet(pre, d) \ DbGet(post, d) : p[2] \notin pre.live
+        /\ \A x \in {"vips", "rules", "specs"} \ {d} : DbGet(post, x) = DbGet(pre, x)
+        /\ ev = "GcEnd" =>
+              \A p \in pre.gc.start : p[2] \notin pre.gc.ever => p \notin DbGet(post, d)
 
 FailIf(name, holds) == IF holds THEN {} ELSE {name}
 FlagIf(name, cond) == IF cond THEN {name} ELSE {}
@@ -268,6 +320,9 @@ StepEx(pre, ev, a, res, post) ==
          /\ ev \in GcOps \cup {"Synchronize"}
          /\ \E p \in db : p[2] \in pre.live
          /\ \E p \in db : p[2] \notin pre.live)
+  \cup FlagIf("gcInterleaved", pre.gc.on /\ ev \in EnvOps)
+  \cup FlagIf("gcRaceNewOwner",
+         /\ ev \in GcSegs /\ \E p \in DbGet(pre, pre.gc.db) : p[2] \in pre.live \ pre.gc.snap)
   \cup FlagIf("exhausted", ev \in {"VipAlloc", "OnCreate", "Import"} /\ res = "raise")
   \cup FlagIf("grant", ev \in GrantOps /\ ~Failed(res))
 
@@ -275,7 +330,7 @@ StepEx(pre, ev, a, res, post) ==
 (* next-state relation with the clauses as a monitor                         *)
 Init == st = [live |-> {}, vips |-> {}, rules |-> {}, specs |-> {}, dev |-> {},
               veth |-> {}, pend |-> {}, phase |-> "down", imp |-> {},
-              n |-> 0, bad |-> {}]
+              gc |-> NoGc, n |-> 0, bad |-> {}]
 
 (* MaxEvents = 0: no bound (the state space is finite without the counter).   *)
 Always == TRUE     \* explicit guard: TLC then labels the step with the action's name
@@ -287,26 +342,43 @@ Advance(ev, a) ==
        st' = [r.post EXCEPT !.n = IF MaxEvents = 0 THEN 0 ELSE st.n + 1,
                             !.bad = st.bad \cup StepFail(st, ev, a, r.res, r.post)]
 
-OwnerAppears(o)    == o \notin st.live /\ Advance("OwnerAppears", <<o>>)
+(* While a stepped pass runs, only the environment acts besides it, and only  *)
+(* the way the system can: a container directory is created before anything   *)
+(* is registered for it and unique names are not re-used, so the owner that   *)
+(* appears holds nothing yet, and entries are created by owners that exist.   *)
+Idle     == ~st.gc.on
+HoldsNothing(o) == \A p \in st.vips \cup st.rules \cup st.specs : p[2] # o
+MidGc(o) == st.gc.on => o \in st.live
+
+OwnerAppears(o)    == /\ o \notin st.live /\ (st.gc.on => HoldsNothing(o))
+                      /\ Advance("OwnerAppears", <<o>>)
 OwnerDisappears(o) == o \in st.live /\ Advance("OwnerDisappears", <<o>>)
-VipAlloc(o)        == Always /\ Advance("VipAlloc", <<o>>)
-VipAllocPicked(o, ip) == Always /\ Advance("VipAllocPicked", <<o, ip>>)
-VipFree(o, ip)     == Always /\ Advance("VipFree", <<o, ip>>)
-VipGC              == Always /\ Advance("VipGC", <<>>)
-RuleCreate(o, r)   == Always /\ Advance("RuleCreate", <<o, r>>)
-RuleUnlink(o, r)   == Always /\ Advance("RuleUnlink", <<o, r>>)
-RuleGC             == Always /\ Advance("RuleGC", <<>>)
-SpecCreate(o, s)   == Always /\ Advance("SpecCreate", <<o, s>>)
-SpecUnlink(o, s)   == Always /\ Advance("SpecUnlink", <<o, s>>)
-SpecUnlinkAll(o, app) == Always /\ Advance("SpecUnlinkAll", <<o, app>>)
-SpecGC             == Always /\ Advance("SpecGC", <<>>)
-SvcStart           == Always /\ Advance("SvcStart", <<>>)
-Import(o)          == st.phase = "import" /\ o \in st.imp /\ Advance("Import", <<o>>)
-Synchronize        == st.phase = "import" /\ st.imp = {} /\ Advance("Synchronize", <<>>)
-OnCreate(o)        == /\ st.phase = "run" /\ o \in st.live /\ o \notin st.pend
+VipAlloc(o)        == MidGc(o) /\ Advance("VipAlloc", <<o>>)
+VipAllocPicked(o, ip) == Idle /\ Advance("VipAllocPicked", <<o, ip>>)
+VipFree(o, ip)     == Idle /\ Advance("VipFree", <<o, ip>>)
+VipGC              == Idle /\ Advance("VipGC", <<>>)
+RuleCreate(o, r)   == MidGc(o) /\ Advance("RuleCreate", <<o, r>>)
+RuleUnlink(o, r)   == Idle /\ Advance("RuleUnlink", <<o, r>>)
+RuleGC             == Idle /\ Advance("RuleGC", <<>>)
+SpecCreate(o, s)   == MidGc(o) /\ Advance("SpecCreate", <<o, s>>)
+SpecUnlink(o, s)   == Idle /\ Advance("SpecUnlink", <<o, s>>)
+SpecUnlinkAll(o, app) == Idle /\ Advance("SpecUnlinkAll", <<o, app>>)
+SpecGC             == Idle /\ Advance("SpecGC", <<>>)
+SvcStart           == Idle /\ Advance("SvcStart", <<>>)
+Import(o)          == Idle /\ st.phase = "import" /\ o \in st.imp /\ Advance("Import", <<o>>)
+Synchronize        == Idle /\ st.phase = "import" /\ st.imp = {} /\ Advance("Synchronize", <<>>)
+OnCreate(o)        == /\ Idle /\ st.phase = "run" /\ o \in st.live /\ o \notin st.pend
                       /\ Advance("OnCreate", <<o>>)
-OnDelete(o)        == /\ st.phase = "run" /\ (o \in st.pend \/ o \notin st.live)
+OnDelete(o)        == /\ Idle /\ st.phase = "run" /\ (o \in st.pend \/ o \notin st.live)
                       /\ Advance("OnDelete", <<o>>)
+(* a pass over database d is offered when d's create action is in focus *)
+GcCreate(d) == CASE d = "vips" -> "VipAlloc" [] d = "rules" -> "RuleCreate" [] OTHER -> "SpecCreate"
+GcBegin(d)         == Idle /\ GcCreate(d) \in Events /\ Advance("GcBegin", <<d>>)
+GcList(d)          == st.gc.on /\ st.gc.db = d /\ ~st.gc.listed /\ Advance("GcList", <<d>>)
+GcVisit(d, e)      == /\ st.gc.on /\ st.gc.db = d /\ st.gc.listed /\ e \in st.gc.todo
+                      /\ Advance("GcVisit", <<d, e>>)
+GcEnd(d)           == /\ st.gc.on /\ st.gc.db = d /\ st.gc.listed /\ st.gc.todo = {}
+                      /\ Advance("GcEnd", <<d>>)
 
 Next ==
   \/ \E o \in OwnerIds : OwnerAppears(o)
@@ -327,6 +399,11 @@ Next ==
   \/ Synchronize
   \/ \E o \in OwnerIds : OnCreate(o)
   \/ \E o \in OwnerIds : OnDelete(o)
+  \/ \E d \in {"vips", "rules", "specs"} : GcBegin(d)
+  \/ \E d \in {"vips", "rules", "specs"} : GcList(d)
+  \/ \E d \in {"vips", "rules", "specs"}, e \in HostSet \cup Outside \cup RuleIds \cup SpecIds :
+        GcVisit(d, e)
+  \/ \E d \in {"vips", "rules", "specs"} : GcEnd(d)
 
 Spec == Init /\ [][Next]_st
 
